@@ -219,10 +219,24 @@ def run_tasks(ck: Check, camp, tasks: list[tuple], procs: int = 12) -> None:
             ck.fail(cls, inp, obs)
 
 
+# former witnesses of repaired findings: they run with the focused corpus under every variant and must HOLD
+FORMER_WITNESSES: list[tuple[str, dict]] = [
+    # D43 (repaired: Parser.__collapse_root_models keeps a root model that is still the base class of the `class CItem(AItem): pass`
+    # written by --reuse-model): duplicate item root models AItem / CItem, and two named array definitions with the same content
+    ("former D43: duplicate item root models",
+     {"title": "Model", "type": "object",
+      "properties": {"f": {"type": "object", "properties": {"a": {"type": "array", "items": {"type": "number", "exclusiveMinimum": 1}, "maxItems": 1}}}},
+      "definitions": {"Base": {"type": "object", "properties": {"c": {"type": "array", "items": {"type": "number", "exclusiveMinimum": 1}, "minItems": 2}}}}}),
+    ("former D43: two identical named array definitions",
+     {"title": "Model", "type": "object", "properties": {"a": {"$ref": "#/definitions/A"}, "b": {"$ref": "#/definitions/B"}},
+      "definitions": {"A": {"type": "array", "items": {"type": "string"}}, "B": {"type": "array", "items": {"type": "string"}}}}),
+]
+
+
 def campaign_focused(ck: Check) -> None:
     camp = ck.campaign("differential oracle between two REAL runs, focused corpus: baseline vs each option × 2 styles")
     t0 = time.time()
-    tasks = [(doc, st, VARIANTS) for _l, doc in focused_docs() for st in STYLES]
+    tasks = [(doc, st, VARIANTS) for _l, doc in focused_docs() + FORMER_WITNESSES for st in STYLES]
     run_tasks(ck, camp, tasks)
     camp.wall_s = time.time() - t0
 
